@@ -266,7 +266,7 @@ func (d *driver) emitTraces(what string, rev int, stfile, cache string) int {
 		ctx.fixed = 0
 		var builder string
 		if g == idir {
-			builder = fmt.Sprintf("(BIndex %s %s)", gal.Str(idir), gal.Str(d.w.revs[rev].b32))
+			builder = fmt.Sprintf("(TIndex %s %s)", gal.Str(idir), gal.Str(d.w.revs[rev].b32))
 		} else {
 			var found bool
 			// no expand-apk directory but a rename: cachedPackage found control and data and
@@ -280,15 +280,15 @@ func (d *driver) emitTraces(what string, rev int, stfile, cache string) int {
 			for _, b := range d.w.revs[rev].repo.Built[arch] {
 				if pdirOf(b) == g {
 					if reader {
-						builder = fmt.Sprintf("(BReader %s %s)", gal.Str(g), gal.Str(hex.EncodeToString(b.DataSHA256)))
+						builder = fmt.Sprintf("(TReader %s %s)", gal.Str(g), gal.Str(hex.EncodeToString(b.DataSHA256)))
 					} else {
-						builder = fmt.Sprintf("(BPackage %s %s)", gal.Str(g), apkTerm(b))
+						builder = fmt.Sprintf("(TPackage %s %s)", gal.Str(g), apkTerm(b))
 					}
 					found = true
 				}
 			}
 			if !found {
-				builder = fmt.Sprintf("(BIndex %s %s)", gal.Str("?unknown-directory"), gal.Str(g))
+				builder = fmt.Sprintf("(TIndex %s %s)", gal.Str("?unknown-directory"), gal.Str(g))
 			}
 		}
 		var terms []string
